@@ -281,10 +281,66 @@ def rule_hierarchy_predicate(ck, facts):
             ck.bad(R, key, "%s decides 'same module hierarchy' without constraining the lengths of the two paths (element-wise comparison stops at the shorter one): code in an enclosing module is treated as being inside its nested modules and may read their private members" % f.short, f.where())
 
 
+def rule_context_bracket(ck, facts, R="C17.context"):
+    """the module context of a function definition applies to its body only"""
+    ck.rule(R, "in the name resolver, the module context that a function definition installs (ResolveContext.current_module_context) is taken back before the continuation of the definition (the `then` part of LetRec) is resolved: a later top-level statement must not be resolved as if it were inside the preceding function's module")
+    lang = facts.crate(roles.LANG)
+    fs = [f for f in lang.fns if f.short.endswith("convert_qualified_names::convert_expr") and f.kind == "fn"]
+    ck.require(R, len(fs) == 1, "anchor|convert_expr", "resolver convert_expr not found")
+    if len(fs) != 1:
+        return
+    f = fs[0]
+    cov = cover.coverage(facts, f, roles.EXPR)
+    ck.require(R, cov is not None and "LetRec" in cov.primary_handled(), "anchor|LetRec", "convert_expr has no LetRec arm")
+    if cov is None or "LetRec" not in cov.primary_handled():
+        return
+    adt = facts.adt(roles.EXPR)
+    nfields = {v["n"]: len(v["f"]) for v in adt["variants"]}
+    FIELD = "ResolveContext::current_module_context"
+    n = 0
+    for v in ("LetRec", "Let"):
+        if v not in cov.primary_handled() or cov.arm_target(v) is None:
+            continue
+        cont = nfields.get(v, 0) - 1  # the continuation is the last payload field
+        sx = SymEx(f, payload_place=cov.primary.place, max_paths=200, max_steps=20000, facts=facts)
+        try:
+            paths = sx.run(cov.arm_target(v))
+        except PathLimit:
+            paths = sx.paths
+        touched = False
+        bad = None
+        for p in paths:
+            if p.end != "return":
+                continue
+            saved = None
+            inside = False
+            for e in p.events:
+                if e[0] == "call" and e[1].endswith("mem::take") and FIELD in repr(e[2]):
+                    saved = ("call", e[1], e[2])
+                    inside = True
+                    touched = True
+                elif e[0] == "store" and FIELD in repr(e[1]):
+                    touched = True
+                    inside = not (saved is not None and e[2] == saved)
+                elif e[0] == "call" and ("('pay', '%s', %d)" % (v, cont)) in repr(e[2]):
+                    if inside:
+                        bad = e[3]
+        if not touched:
+            continue
+        n += 1
+        key = "bracket|%s" % v
+        if bad is None:
+            ck.ok(R, key, {"arm": v, "continuation": "resolved after the context was taken back"})
+        else:
+            ck.bad(R, key, "convert_expr (arm %s) resolves the continuation of the definition while the module context installed for the function body is still in force: a global `let` after `mod m { fn secret() .. }` is resolved as if inside `m` (`m::secret()` passes the privacy check, bare `secret()` resolves to m$secret)" % v, f.where(bad))
+    ck.floor(R, "context_brackets", n, 1)
+
+
 def run(ck, facts, tier):
     rule_alias_export(ck, facts)
     rule_hierarchy_predicate(ck, facts)
     rule_register(ck, facts)
     rule_routes(ck, facts)
     rule_scope(ck, facts)
+    rule_context_bracket(ck, facts)
     ck.not_decided("that every accepted reference resolves to the unique definition its path denotes, for concrete module trees")
